@@ -104,16 +104,7 @@ def recv_mixed(npub, polls, nones, planted=None, forms=None):
             if i in last and tags[0].mid < last[i]: e.fail('eph-order', f'ephemeral source {i}: id {tags[0].mid} after {last[i]}', {'kind': 'eph-order'})
             last[i] = tags[0].mid
         ctx.eph_last = last
-        # every flow-control message says what kind of consumer sent it: the publisher's bookkeeping relies on the 'eph' mark (c05.send_noninterference)
-        for snd in ctx.r.senders.values():
-            if snd.push is None: continue
-            for m in snd.push.sent:
-                d = m[0].d
-                if d.get('mid', 0) <= Z.MSG_ID_SPECIAL: continue
-                if snd.ephemeral and d.get('eph') != snd.ephemeral:
-                    e.fail('eph-mark-missing', f"request {d} of a '{'?' * snd.ephemeral}' source does not carry the ephemeral mark: the publisher would track it as a synchronized consumer", {'kind': 'eph-mark-missing'})
-                if not snd.ephemeral and d.get('eph'):
-                    e.fail('eph-mark-spurious', f'request {d} of a synchronized source is marked ephemeral', {'kind': 'eph-mark-spurious'})
+        check_request_marks(ctx)
         for s in ctx.r.senders.values():
             if s.ephemeral == 2:
                 if s.push is not None: e.fail('eph2-push', '?? source owns a request socket', {'kind': 'eph2-push'})
@@ -121,7 +112,7 @@ def recv_mixed(npub, polls, nones, planted=None, forms=None):
             if sock.kind == fakezmq.PUSH and sock.addr and any(s.ephemeral == 2 and s.addr.split(':')[1] == sock.addr.split(':')[1] for s in ctx.r.senders.values()):
                 pass
     def scenario(e):
-        recv_stream(e, forms or FORMS, npub, polls, nones, check, again=True)
+        recv_stream(e, forms or FORMS, npub, polls, nones, check, again=True, any_order=True)
     return scenario
 
 
